@@ -15,8 +15,8 @@ from dataclasses import dataclass
 from typing import Dict, List, Union
 
 from cbor2 import CBORTag
-from pycardano.plutus import (Datum, PlutusData, RawPlutusData, datum_hash, get_constructor_id_and_fields,
-                              get_tag)
+from pycardano.plutus import (Datum, ExecutionUnits, PlutusData, RawPlutusData, Redeemer, RedeemerTag, datum_hash,
+                              get_constructor_id_and_fields, get_tag)
 from pycardano.serialization import ByteString, IndefiniteList
 
 
@@ -162,7 +162,9 @@ def get_class(t):
         return _CLASSES[key]
     anns = [ty_src(ft) for ft in t[2]]      # creates the nested classes first (descriptions are trees)
     name = f'G{len(SOURCES)}_{t[1]}'
-    lines = ['@dataclass', f'class {name}(PlutusData):', f'    CONSTR_ID = {t[1]}']
+    # unsafe_hash=True: instances can be dict keys (Map Credential Integer, ...) whenever their field values are
+    # hashable -- the model's `hashable` says exactly this
+    lines = ['@dataclass(unsafe_hash=True)', f'class {name}(PlutusData):', f'    CONSTR_ID = {t[1]}']
     for i, a in enumerate(anns):
         lines.append(f'    f{i}: {a}')
     src = '\n'.join(lines) + '\n'
@@ -213,8 +215,15 @@ def typed_case(c):
     if not out['enc'].startswith('!'):
         out['hash_ok'] = res(lambda: datum_hash(x).payload == blake(bytes.fromhex(out['enc'])) and x.hash() == datum_hash(x))
         out['rt_self'] = res(lambda: cls.from_cbor(x.to_cbor()).to_cbor())
+
+        def _red():
+            # the same object as the data of a redeemer: to_primitive reaches it through the enclosing array
+            r = Redeemer(x, ExecutionUnits(1, 2))
+            r.tag = RedeemerTag.WITHDRAWAL
+            return r.to_cbor() == b'\x84\x03\x00' + bytes.fromhex(out['enc']) + b'\x82\x01\x02'
+        out['redeemer_ok'] = res(_red)
     else:
-        out['hash_ok'] = out['rt_self'] = None
+        out['hash_ok'] = out['rt_self'] = out['redeemer_ok'] = None
     out['rt_ref'] = res(lambda: cls.from_cbor(ref).to_cbor())
     td = [None]
 
